@@ -126,7 +126,10 @@ def source_scan(modules=None):
 
 
 # audited modules whose theorems live in another namespace than their directory suggests
-NAMESPACES = {'Lemmas.MiniPyFuel': 'Bridge.Py'}
+NAMESPACES = {'Lemmas.MiniPyFuel': 'Bridge.Py',
+              # the theorem families about the translated THREAD programs live in their own namespaces
+              'Translated.ThreadsMainA': 'Bridge.Translated.MainA', 'Translated.ThreadsMainB': 'Bridge.Translated.MainB',
+              'Translated.ThreadsSeatB': 'Bridge.Translated.SeatB', 'Translated.ThreadsClientA': 'Bridge.Translated.ClientA'}
 
 
 def prop_module(prop):
